@@ -68,8 +68,60 @@ def _short(p):
     return "::".join(parts[-2:])
 
 
+def _head(t):
+    """the head of an operand term: where the value comes from (outermost producing call, parameter, captured variable, constant),
+    with the field path taken from it, without the producer's own arguments - those change whenever the expression feeding the
+    site is rearranged (a temporary introduced, a constructor moved into a helper) while the site stays the same site"""
+    fields = []
+    while True:
+        if t[0] in ("ref", "deref", "cast"):
+            t = t[1]
+        elif t[0] == "field":
+            fields.append(t[2] if t[2].startswith(".") else " " + t[2])
+            t = t[1]
+        else:
+            break
+    k = t[0]
+    if k == "call":
+        from terms import short_path
+        base = "%s(%s)" % (short_path(t[1]), "…" if t[2] else "")
+    elif k in ("param", "upvar", "const", "static", "fnitem", "built"):
+        base = show(t)[:40]
+    elif k == "agg":
+        from terms import short_path
+        base = "%s{…}" % short_path(t[1])
+    elif k == "bin":
+        base = "(… %s …)" % t[1]
+    else:
+        base = k
+    return base + "".join(reversed(fields))
+
+
 def descriptor(fn, s):
     """line-independent descriptor of the site's operand"""
+    t = s["t"]
+    if s["kind"] in ("Index", "Call"):
+        a = t.get("args", [])
+        recv = _head(origin(fn, a[0])) if a else ""
+        if s["kind"] == "Index" and len(a) == 2:
+            ix = origin(fn, a[1])
+            if ix[0] == "const":
+                ixs = repr(ix[1])
+            elif ix[0] == "agg":
+                ixs = "%s{%s}" % (ix[1].split("::")[-2] if "::" in ix[1] else ix[1], ",".join(repr(x[1]) if x[0] == "const" else "_" for x in ix[2]))
+            else:
+                ixs = "_"
+            return "%s[%s](%s)" % (s["op"].replace("[]", ""), ixs, recv)
+        return "%s(%s)" % (s["op"], recv)
+    if s["kind"] == "BoundsCheck":
+        return "index %s of len %s" % (_head(origin(fn, t["index"])), _head(origin(fn, t["len"])))
+    if s["kind"].startswith("Overflow"):
+        return "%s %s, %s" % (s["op"], re.sub(r"_\d+", "_", show(origin(fn, t["a"]))[:40]), re.sub(r"_\d+", "_", show(origin(fn, t["b"]))[:40]))
+    return s["op"]
+
+
+def descriptor_v1(fn, s):
+    """the descriptor used before operands were reduced to their head (kept for tools/migrate_panic_keys.py)"""
     t = s["t"]
     if s["kind"] in ("Index", "Call"):
         a = t.get("args", [])
@@ -114,9 +166,14 @@ def discharge(F, fn, s, dbname, table_field_names):
             if _guarded_by_presence(fn, s["bb"], a[0]):
                 return "dominated by presence check"
         if m == "from_slice" and a:
-            o = origin(fn, a[-1])
-            if _fixed_len_slice(o):
-                return "fixed-length slice"
+            need = _fixed_type_len(t["func"]["fn"])
+            got = _slice_len(fn, a[-1])
+            if need is not None and got == need:
+                return "slice of exactly %d bytes by construction" % need
+        if m == "copy_from_slice" and len(a) == 2:
+            d0, d1 = _slice_len(fn, a[0]), _slice_len(fn, a[1])
+            if d0 is not None and d0 == d1:
+                return "source and destination are both %d bytes by construction" % d0
         if m in ("slice", "split_at", "split_to", "split_off", "advance") and len(a) >= 2:
             need = _range_need(origin(fn, a[1]))
             if need is not None and _min_len_guard(fn, s["bb"], need):
@@ -135,10 +192,17 @@ def discharge(F, fn, s, dbname, table_field_names):
                 return "dominated by `idx < len`"
             if _counter_guard(fn, s["bb"], a[1], (t["func"]["fn"].get("self_ty") or "")):
                 return "loop counter: every definition reaches the index only through `idx < len` (0 through `len != 0`)"
-            # range index with constant bounds into fixed-size array
+            # range index with constant bounds into fixed-size array: the bounds must lie inside it
             st = (t["func"]["fn"].get("self_ty") or "")
-            if idx[0] == "agg" and all(x[0] == "const" for x in idx[2]) and re.match(r"^\[u8; \d+\]$|FixedBytes<\d+>", st):
-                return "constant range into fixed-size array"
+            mN = re.search(r"^\[u8; (\d+)\]$|FixedBytes<(\d+)>$", st.strip())
+            if idx[0] == "agg" and idx[2] and all(x[0] == "const" and isinstance(x[1], int) for x in idx[2]) and mN:
+                N = int(mN.group(1) or mN.group(2))
+                kind = idx[1].split("::")[-1]
+                b = [x[1] for x in idx[2]]
+                ok = (kind == "Range" and len(b) == 2 and b[0] <= b[1] <= N) or (kind == "RangeFrom" and len(b) == 1 and b[0] <= N) or \
+                     (kind == "RangeTo" and len(b) == 1 and b[0] <= N)
+                if ok:
+                    return "constant range inside a fixed-size array of %d" % N
         return None
     if k == "BoundsCheck":
         idx = origin(fn, t["index"])
@@ -174,9 +238,69 @@ def _all_const(t):
     return False
 
 
-def _fixed_len_slice(t):
-    s = show(t)
-    return False
+def _fixed_type_len(f):
+    """byte length of the fixed-size type whose `from_slice` panics on any other length"""
+    st = (f.get("self_ty") or "") + " " + (f.get("path") or "")
+    m = re.search(r"FixedBytes<(\d+)>", st)
+    if m:
+        return int(m.group(1))
+    if re.search(r"(^|::)Address(::|$| )", st):
+        return 20
+    if re.search(r"(^|::)Bloom(::|$| )", st):
+        return 256
+    return None
+
+
+def _array_len(ty):
+    m = re.match(r"^&?(?:mut )?\[u8; (\d+)\]$", (ty or "").strip())
+    if m:
+        return int(m.group(1))
+    m = re.search(r"FixedBytes<(\d+)>$", (ty or "").strip())
+    if m:
+        return int(m.group(1))
+    return None
+
+
+def _slice_len(fn, op, depth=0):
+    """length in bytes of the slice/array an operand refers to when it is fixed by construction: a `[u8; N]` / FixedBytes<N>
+    local (possibly behind references, unsizing casts, `as_slice`/`as_ref`/deref), or a constant `a..b` range of one"""
+    if depth > 10 or not isinstance(op, dict) or "l" not in op:
+        return None
+    ty = fn.local_ty(op["l"])
+    if not [e for e in op.get("p", []) if e != "*"]:
+        n = _array_len(ty)
+        if n is not None:
+            return n
+    ds = [d for d in fn.defs().get(op["l"], []) if not fn.is_cleanup(d[0]) and d[2] in ("assign", "call")]
+    if len(ds) != 1:
+        return None
+    bb, idx, kind, payload = ds[0]
+    if kind == "assign":
+        rv = payload["rv"]
+        if rv["k"] == "ref":
+            return _slice_len(fn, dict(rv["place"], k="copy"), depth + 1)
+        if rv["k"] in ("use", "cast") and rv.get("ops"):
+            return _slice_len(fn, rv["ops"][0], depth + 1)
+        return None
+    f = payload["func"].get("fn") or {}
+    m = f.get("method") or (f.get("path") or "").split("::")[-1]
+    a = payload.get("args", [])
+    if m in ("as_slice", "as_ref", "deref", "as_mut_slice", "as_mut", "deref_mut", "borrow", "as_bytes") and a:
+        return _slice_len(fn, a[0], depth + 1)
+    if f.get("trait") in INDEX_TRAITS and m in ("index", "index_mut") and len(a) == 2:
+        base = _slice_len(fn, a[0], depth + 1)
+        ix = origin(fn, a[1])
+        if ix[0] == "agg" and ix[2] and all(x[0] == "const" and isinstance(x[1], int) for x in ix[2]):
+            kind = ix[1].split("::")[-1]
+            b = [x[1] for x in ix[2]]
+            if kind == "Range" and len(b) == 2 and b[0] <= b[1]:
+                return b[1] - b[0]
+            if kind == "RangeTo" and len(b) == 1:
+                return b[0]
+            if kind == "RangeFrom" and len(b) == 1 and base is not None and b[0] <= base:
+                return base - b[0]
+        return None
+    return None
 
 
 def _induction_of(idx, recv):
@@ -414,13 +538,13 @@ def _guarded_by_presence(fn, bb, op):
 
 
 
-def site_key(fn, s):
+def site_key(fn, s, v1=False):
     """ledger key of a panic-capable site: function | kind | operand descriptor, with closure ordinals removed
     (they shift when an unrelated closure is added to or removed from the enclosing function).  An explicit `panic!(..)` is
     keyed by its owner only - the type whose method (or helper of whose method) contains it, or the module of a free
     function - and counted: moving such a guard into a helper or rewording its message is not a new site, an additional
     one beyond the reviewed count is."""
-    d = descriptor(fn, s)
+    d = (descriptor_v1 if v1 else descriptor)(fn, s)
     if s["kind"] == "Call" and (d.startswith("panicking::panic_fmt(") or d.startswith("panicking::panic(") or d.startswith("panicking::panic_display(")):
         return "%s|panic!" % panic_owner(fn)
     return re.sub(r"\{closure#\d+\}", "{closure}", "%s|%s|%s" % (fn.name, s["kind"], d))
